@@ -8,6 +8,10 @@ unset GOWORK
 if [ ! -x bin/verifcheck ] || [ -n "$(find checker -name '*.go' -newer bin/verifcheck 2>/dev/null | head -1)" ]; then
   ./build.sh || { echo "BUILD-FAILED"; exit 2; }
 fi
+if [ -n "$VERIF_REPO" ] && [ "$VERIF_REPO" != "/repo" ] && [ -z "$VERIF_EVIDENCE_DIR" ]; then
+  # a variant tree (seeded change, neutral refactoring): /verif/evidence describes /repo only
+  VERIF_EVIDENCE_DIR="/tmp/verif_variant_evidence$(echo "$VERIF_REPO" | tr '/' '_')"; export VERIF_EVIDENCE_DIR
+fi
 if [ "$1" = "--explain" ]; then
   f="$2"; id=$(basename "$f" | cut -d. -f1)
   [ -f "$f" ] && cat "$f"
